@@ -79,6 +79,11 @@ class FakeKernel:
 
     # -- os.* used on descriptors
     def pipe(self):
+        k = self.calls
+        self.calls += 1
+        e = self.fail_at.get(k)
+        if e is not None:
+            raise OSError(e, real_os.strerror(e))
         r = self._new("kill_r")
         w = self._new("kill_w")
         self.pipes[w] = r
